@@ -23,7 +23,8 @@ Record variant := {
   d27_synack_guard : bool;    (* a SYN+ACK after a cancelled connect posts no (empty) handler *)
   d8_drop_unaccounts : bool;  (* packet_dropped takes the segment out of the in-flight account *)
   d9_drop_cb_kept : bool;     (* the parked segment gets its drop callback back *)
-  d25_resolver_order : bool   (* lookups start no earlier than requested; literals queued in time order *)
+  d25_resolver_order : bool;  (* lookups start no earlier than requested; literals queued in time order *)
+  d11b_drop_via_fwd : bool    (* a segment's drop callback reaches its socket through the forwarder, not a raw pointer *)
 }.
 
 Definition pinned : variant :=
@@ -32,4 +33,4 @@ Definition pinned : variant :=
      d7_wakeup_fixed := false; d6_close_clears := false; d12_accept_visible_ep := false;
      d13_acceptor_close := false; d14_nat_syn_only := false; d18_accept_mss := false;
      d26_writer_wakeup := false; d11a_drop_guard := false; d27_synack_guard := false;
-     d8_drop_unaccounts := false; d9_drop_cb_kept := false; d25_resolver_order := false |}.
+     d8_drop_unaccounts := false; d9_drop_cb_kept := false; d25_resolver_order := false; d11b_drop_via_fwd := false |}.
